@@ -195,12 +195,13 @@ class Ev:
                 is_addr = True
             elif k == "field":
                 n = p["n"]
+                on = p.get("on", "")
                 if not is_addr and cur[0] == "agg" and p["i"] < len(cur[3]):
                     cur = cur[3][p["i"]]
                 elif not is_addr and cur[0] == "load":
-                    cur = ("load", ("field", cur[1], n), cur[2])
+                    cur = ("load", ("field", cur[1], n, on), cur[2])
                 else:
-                    cur = ("field", cur, n)
+                    cur = ("field", cur, n, on)
             elif k == "index":
                 iv = self.local_val(p["l"], at)
                 if not is_addr and cur[0] == "load":
@@ -332,7 +333,7 @@ def strip(e, unwrap=True):
     if t == "tmp":
         return strip(e[1], unwrap)
     if t == "field":
-        return ("field", strip(e[1], unwrap), e[2])
+        return ("field", strip(e[1], unwrap), e[2], e[3] if len(e) > 3 else "")
     if t == "index":
         return ("index", strip(e[1], unwrap), strip(e[2], unwrap))
     if t == "cindex":
